@@ -65,6 +65,22 @@ def cases(tier, seed):
                     for prod in (False, True):
                         out.append({'kind': 'dde', 'nstate': nstate, 'terms': [list(t) for t in terms], 'target': target,
                                     'prod': prod, 'sparse': False, 'backend': 'default'})
+    # delayed edges under an adaptive solver: one source variable fanning out with different delays into different
+    # target equations, chains, and two sources onto one target
+    dops = {'so': {'eqs': ["d/dt * x = -k*x*x"], 'vars': {'x': 'output(0.6)', 'k': 0.8}},
+            'tn': {'eqs': ["d/dt * v = -v + tanh(u)"], 'vars': {'v': 'output(0.1)', 'u': 'input(0.0)'}}}
+    tp = {'S': [['so', {}]], 'S2': [['so', {'k': 1.3, 'x': 0.4}]], 'T': [['tn', {}]], 'T2': [['tn', {'v': -0.2}]]}
+    for d1, d2 in ((0.5, 1.0), (1.0, 0.5), (0.5, 0.5), (0.3, 1.0)):
+        nets = {'fanout': ({'a': 'S', 'b': 'T', 'cc': 'T2'}, [['a/so/x', 'b/tn/u', None, {'weight': 2.0, 'delay': d1}],
+                                                             ['a/so/x', 'cc/tn/u', None, {'weight': -0.5, 'delay': d2}]]),
+                'chain': ({'a': 'S', 'b': 'T', 'cc': 'T2'}, [['a/so/x', 'b/tn/u', None, {'weight': 2.0, 'delay': d1}],
+                                                            ['b/tn/v', 'cc/tn/u', None, {'weight': 1.5, 'delay': d2}]]),
+                'fanin': ({'a': 'S', 'a2': 'S2', 'b': 'T'}, [['a/so/x', 'b/tn/u', None, {'weight': 2.0, 'delay': d1}],
+                                                            ['a2/so/x', 'b/tn/u', None, {'weight': -0.5, 'delay': d2}]])}
+        for name, (nodes_, edges_) in nets.items():
+            out.append({'kind': 'spec', 'sparse': False, 'backend': 'default', 'delays': sorted({d1, d2}),
+                        'spec': {'ops': dops, 'node_tpls': tp, 'edge_tpls': {}, 'share': True,
+                                 'circuit': {'name': 'net', 'nodes': nodes_, 'edges': edges_}}})
     return out
 
 
@@ -106,7 +122,7 @@ def run_case(case):
         op = FUNC_OPS[case['op']] if case['kind'] == 'op' else dde_op(case['nstate'], case['terms'], case['target'], case['prod'])
         o = OperatorTemplate('jop', equations=list(op['eqs']), variables=copy.deepcopy(op['vars']))
         return CircuitTemplate('c', nodes={'n': NodeTemplate('n', operators=[o])})
-    solver = 'scipy' if case['kind'] == 'dde' else 'euler'
+    solver = 'scipy' if case['kind'] == 'dde' or case.get('delays') else 'euler'
     try:
         C = impl.compile_field(mk(), {'vectorize': False, 'dt': DT, 'solver': solver, 'backend': case['backend']})
         pool.fresh_state()
@@ -124,7 +140,7 @@ def run_case(case):
     y0 = C.y0().astype(float)
     is_dde = C.has_hist
     # distinct delays (values) of a dde case
-    delays = []
+    delays = list(case.get('delays') or [])
     if case['kind'] == 'dde':
         dv = dict(C10.DELAYS)
         for t in case['terms']:
